@@ -835,6 +835,9 @@ class TdmsChannel(object):
             self.properties, self._group_properties, self._file_properties)
 
     def _read_channel_data_chunks(self):
+        if self.data_type is None:
+            # Channel has no data in any segment, so there is nothing to read
+            return
         for chunk in self._reader.read_raw_data_for_channel(self.path):
             _convert_channel_data_chunk(chunk, self._raw_timestamps)
             yield chunk
@@ -851,6 +854,9 @@ class TdmsChannel(object):
             raise ValueError("length must be non-negative")
         if self._reader.is_index_file_only():
             raise RuntimeError("Data cannot be read from index file only")
+        if self.data_type is None:
+            # Channel has no data in any segment, so there is nothing to read
+            return None
 
         with Timer(log, "Allocate space for channel"):
             # Allocate space for data
